@@ -23,6 +23,9 @@ type c11In struct {
 	Widths []int  `json:"widths"` // container widths in px
 	// modes "split" / "real": a single already white-space-processed text
 	Text *TextIn `json:"text,omitempty"`
+	// NoGuard disables the known-defect guards of the reference model (never set by the
+	// generator; used by the witnesses under findings/C11)
+	NoGuard bool `json:"noguard,omitempty"`
 }
 
 func tol(a, b float64) float64 {
@@ -33,21 +36,22 @@ func near(a, b float64) bool { return math.Abs(a-b) <= tol(a, b) }
 
 func init() {
 	fw.Register(&fw.Prop{
-		ID:   "C11",
-		Rule: "a case is one generated paragraph laid out at up to 64 container widths (every multiple of font-size/2 from 1 up, then a random sample up to the paragraph's full length + 2); it is non-trivial when at least one width produced two or more lines with a soft wrap between them and every block of the case was compared line by line with the reference model; distinct = distinct (paragraph, widths) input",
+		ID: "C11",
+		Rule: "case i mod 20: 0-11 a generated paragraph (words, nested inline boxes with margins/borders/padding, inline-blocks, <br>, preserved newlines; white-space, text-align, line-height, text-indent, font sizes drawn) set in Ahem and laid out by the pango engine at up to 64 container widths (every multiple of font-size/2 from 1 up to 40, then a random sample up to the paragraph's full length + 2), each block compared line by line with the reference line breaker; 12-13 the same with overflow-wrap on plain text; 14-15 the same on plain text with the go-text engine; 16-17 direct calls of text.SplitFirstLine (Ahem exact, DejaVu Sans inequalities; pango / go-text) over a sweep of maximum widths; 18-19 a plain paragraph in DejaVu Sans at 48 widths, inequalities only (pango / go-text). " +
+			"A case is non-trivial when at least one width produced a soft wrap and no comparison of the case failed; distinct = distinct input",
 		N: func(tier string) int {
 			if tier == "thorough" {
-				return 12000
+				return 16000
 			}
-			return 600
+			return 800
 		},
 		Gen:   genCase,
 		Check: check,
 		Floor: func(tier string) int {
 			if tier == "thorough" {
-				return 6000
+				return 8000
 			}
-			return 300
+			return 400
 		},
 		CounterFloors: func(tier string) map[string]int64 {
 			k := int64(1)
@@ -55,14 +59,26 @@ func init() {
 				k = 20
 			}
 			return map[string]int64{
-				"blocks_compared": 15000 * k,
-				"lines_compared":  60000 * k,
-				"soft_breaks":     30000 * k,
-				"exact_fit_lines": 1500 * k,
+				"blocks_compared":         15000 * k,
+				"lines_compared":          80000 * k,
+				"soft_breaks":             60000 * k,
+				"exact_fit_lines":         5000 * k,
+				"lines_with_inline_boxes": 5000 * k,
+				"justified_lines":         2000 * k,
+				"atomic_inlines":          1000 * k,
+				"forced_breaks":           3000 * k,
+				"paragraphs_with_indent":  80 * k,
+				"split_calls":             3000 * k,
+				"split_soft_breaks":       1500 * k,
+				"real_blocks":             1500 * k,
+				"real_soft_breaks":        3000 * k,
 			}
 		},
 		Assumptions: []string{
 			"exact positions are asserted only with the Ahem font (1em square glyphs, ascent 0.8em, descent 0.2em), left-to-right ASCII text, no floats, no hyphenation, no letter/word spacing",
+			"with DejaVu Sans (/usr/share/fonts/truetype/dejavu/DejaVuSans.ttf) only inequalities with 1px slack are asserted",
+			"feature combinations that trigger the defects D1-D15 / G1-G3 of notes/C11.md are not generated or are skipped by the reference model's guards (counted as blocks_skipped_known_defect_*)",
+			"pre-wrap: plain text, single spaces, no space before a forced break; go-text engine: plain text in white-space normal/nowrap; overflow-wrap: plain text, no indent; word-break:break-all not compared",
 		},
 		Batch: 10,
 	})
@@ -147,21 +163,24 @@ func genCase(r *rand.Rand, i int, tier string) any {
 	case 1:
 		p.LH = fmt.Sprintf("%dpx", pick(r, f, f+4, 2*f, 30, f+f/2))
 	default:
-		p.LH = pick(r, "1", "1.25", "1.5", "2", "3")
+		p.LH = pick(r, "1", "1.25", "1.5", "2", "3", "0.75")
 	}
-	if r.Intn(3) == 0 {
+	switch r.Intn(8) {
+	case 0, 1:
 		p.Indent = pick(r, 1, 2, 3, 4, 5, 6) * (f / 2)
+	case 2:
+		p.IndPct = pick(r, 10, 25, 50)
 	}
 	if ow != "" {
 		p.OW = ow
-		p.Indent = 0
+		p.Indent, p.IndPct = 0, 0
 	}
 	if v := os.Getenv("C11_OW"); v != "" { // exploration only
 		if strings.HasPrefix(v, "wb:") {
 			p.WB = v[3:]
 		} else {
 			p.OW = v
-			p.Indent = 0
+			p.Indent, p.IndPct = 0, 0
 		}
 	}
 	in := c11In{Mode: "ahem", Engine: engine, Feat: ft.String(), Para: *p, Widths: widthsFor(r, p)}
@@ -231,7 +250,7 @@ func checkAhem(in *c11In) fw.Result {
 			return res
 		}
 		exp, guard := m.Layout(float64(W))
-		if guard != "" {
+		if guard != "" && !in.NoGuard {
 			res.Count("blocks_skipped_known_defect_"+guard, 1)
 			continue
 		}
